@@ -601,6 +601,12 @@ class Scheduler:
         # Allowing database changes in between
         # would result in potential race conditions and inconsistencies.
         async with self.db:
+            if self.draining:
+                # Draining started while this task was waiting for the database lock,
+                # e.g. because a step just failed on an unexpected change of an input.
+                logger.debug("Scheduler is draining, not popping any jobs")
+                return None
+
             # A) Perform metadata updates for all steps whose changes have not been propagated
             #    into the metadata columns yet.
 
